@@ -109,6 +109,43 @@ Theorem C09_no_leak_partial : forall setup body k p1 p2,
 Proof. exact no_leak_py. Qed.
 Print Assumptions C09_no_leak_partial.
 
+(* ---- histories: pass k of the main loop executes the statement sequence bodies_k (run-time
+   conditions around list statements select a sub-sequence of the loop body in every pass) *)
+Theorem C09_history_owner_unique_partial : forall setup bodies,
+  single_owner_seq setup bodies = true ->
+  match run_fw_seq setup bodies with
+  | Safe st => wf_heap st /\ tight st
+  | Unsafe k => k = OutOfBounds
+  end.
+Proof. exact owner_unique_fw_seq. Qed.
+Print Assumptions C09_history_owner_unique_partial.
+
+Theorem C09_history_python_safe_partial : forall setup bodies pst,
+  single_owner_seq setup bodies = true -> run_py_seq setup bodies = POk pst ->
+  exists st, run_fw_seq setup bodies = Safe st /\ wf_heap st /\ tight st /\ f_live_cells st = p_live pst.
+Proof. exact owner_unique_py_seq. Qed.
+Print Assumptions C09_history_python_safe_partial.
+
+Theorem C09_history_no_leak_partial : forall setup bodies b p1 p2,
+  single_owner_seq setup (bodies ++ [b]) = true ->
+  run_py_seq setup bodies = POk p1 -> run_py_seq setup (bodies ++ [b]) = POk p2 -> p_live p1 = p_live p2 ->
+  exists s1 s2, run_fw_seq setup bodies = Safe s1 /\ run_fw_seq setup (bodies ++ [b]) = Safe s2 /\
+                f_live_cells s1 = f_live_cells s2.
+Proof. exact no_leak_py_seq. Qed.
+Print Assumptions C09_history_no_leak_partial.
+
+(* a single-owner body stays single-owner under every gating `if g > t:` and every input sequence,
+   and N passes of an ungated body are the history that repeats it N times *)
+Theorem C09_gated_guard : forall setup body gates gvals,
+  single_owner setup body = true ->
+  single_owner_seq setup (map (fun g => select g gates body) gvals) = true.
+Proof. exact single_owner_gated. Qed.
+Print Assumptions C09_gated_guard.
+
+Theorem C09_repeat_history : forall setup body n, run_fw setup body n = run_fw_seq setup (repeat body n).
+Proof. exact run_fw_repeat. Qed.
+Print Assumptions C09_repeat_history.
+
 Example C09_partial_nonvacuous :
   single_owner ok_setup ok_body = true /\ exists pst, run_py ok_setup ok_body 3 = POk pst /\ p_live pst = 8.
 Proof. exact (conj ok_guard ok_python). Qed.
